@@ -112,12 +112,15 @@ class AsyncEngine:
     def _async_cache_cleanup(self) -> None:
         """Periodic cache cleanup."""
         now = current_time_millis()
-        self.zc.question_history.async_expire(now)
-        self.zc.record_manager.async_updates(
-            now, [RecordUpdate(record, record) for record in self.zc.cache.async_expire(now)]
-        )
-        self.zc.record_manager.async_updates_complete(False)
-        self._async_schedule_next_cache_cleanup()
+        try:
+            self.zc.question_history.async_expire(now)
+            self.zc.record_manager.async_updates(
+                now, [RecordUpdate(record, record) for record in self.zc.cache.async_expire(now)]
+            )
+            self.zc.record_manager.async_updates_complete(False)
+        finally:
+            # A listener that raises must not end the periodic cleanup
+            self._async_schedule_next_cache_cleanup()
 
     def _async_schedule_next_cache_cleanup(self) -> None:
         """Schedule the next cache cleanup."""
